@@ -425,6 +425,61 @@ func runBatch(id int, b batch, rng *common.Rng) (string, bool) {
 			_, err := bm.Fitness_default(in, exp, uint64(ticks))
 			ok = ok && err == nil
 		}
+	case "fiterr":
+		// Fitness_default with an `exp` simbox it has to refuse: every error return must leave nothing
+		// behind, whatever stage it comes from (the expected-values box is examined by SimReport.Init)
+		fn = "Fitness_default"
+		bm, err := b.M.build()
+		if err != nil {
+			return "", false
+		}
+		bad := []string{
+			"absolute:5:set:o7:0",   // an output the machine does not have
+			"relative:3:set:p9r0:1", // a register of a processor it does not have
+			"absolute:1:set:i5:3",   // an input it does not have
+			"relative:2:set:zz:1",   // not an element name
+			"absolute:2:set:p0r9:1", // a register the processor does not have
+		}
+		for i := 0; i < b.N; i++ {
+			in := new(simbox.Simbox)
+			exp := new(simbox.Simbox)
+			r := bad[(i+b.K)%len(bad)]
+			if e := exp.Add(r); e != nil {
+				return "", false
+			}
+			if rng.Bool() {
+				exp.Add("absolute:100000:set:o0:1") // a valid rule beyond the simulated ticks, first or second
+			}
+			_, err := bm.Fitness_default(in, exp, uint64(ticks))
+			ok = ok && err != nil
+		}
+	case "spserr":
+		// SinglePipelineSimulate with stimuli it has to refuse, before or after the launch
+		fn = "SinglePipelineSimulate"
+		two := b.M
+		two.Two = true
+		bm, err := b.M.build()
+		if err != nil {
+			return "", false
+		}
+		bm2, err := two.build()
+		if err != nil {
+			return "", false
+		}
+		for i := 0; i < b.N; i++ {
+			var e error
+			switch (i + b.K) % 4 {
+			case 0: // not a number
+				_, e = bm.SinglePipelineSimulate("unsigned", []string{"zz"}, nil)
+			case 1: // more stimuli than inputs
+				_, e = bm.SinglePipelineSimulate("unsigned", []string{"1", "2", "3"}, nil)
+			case 2: // a number type that does not exist (refused on the last tick, after the launch)
+				_, e = bm2.SinglePipelineSimulate("nosuchtype", []string{"7"}, nil)
+			case 3: // a malformed sized literal
+				_, e = bm.SinglePipelineSimulate("unsigned", []string{"0u<zz>5"}, nil)
+			}
+			ok = ok && e != nil
+		}
 	case "raw":
 		// the way cmd/bondmachine drives a VM: Init, Launch_processors, Step..., and the shutdown method
 		// if the tree has one
@@ -633,6 +688,9 @@ func runAll(tier string) {
 		next(batch{Mode: "raw", N: 3, M: genDeadMach(rng, 2)})
 		next(batch{Mode: "seqerr", N: 2, M: genDeadMach(rng, 2)})
 		next(batch{Mode: "seqerr", N: 1 + rng.Intn(5), M: genMach(rng, 3)})
+		next(batch{Mode: "fiterr", N: 10, K: rng.Intn(5), M: genMach(rng, 3)})
+		next(batch{Mode: "fiterr", N: 5, K: rng.Intn(5), M: genFailMach(rng, 2)})
+		next(batch{Mode: "spserr", N: 12, K: rng.Intn(4), M: genMach(rng, 3)})
 		next(batch{Mode: "fit", N: 1, M: genMach(rng, 3)})
 		next(batch{Mode: "fit", N: 10, M: genMach(rng, 3)})
 		next(batch{Mode: "raw", N: 1 + rng.Intn(10), M: genMach(rng, 4)})
